@@ -109,7 +109,7 @@ OnAttempt(m, e) ==
        \cup (IF retry /\ thr > 0 /\ e.t - m.last.t < thr THEN {V("throttle-not-honoured", Flaky(m), m, e.t - m.last.t)} ELSE {})
        \cup (IF retry /\ c.enabled /\ c.maxel # 0 /\ m.answered /\ (m.last.t - m.firstT) + thr > c.maxel
                THEN {V("attempt-after-max-elapsed", Flaky(m), m, (m.last.t - m.firstT) + thr)} ELSE {})
-       \cup (IF m.ret # "none" /\ ~Stopped(m) /\ c.atto = 0 THEN {V("attempt-after-return", FALSE, m, 0)} ELSE {})
+       \cup (IF m.ret # "none" /\ ~Stopped(m) /\ ~Flaky(m) THEN {V("attempt-after-return", FALSE, m, 0)} ELSE {})
        \cup (IF m.ret # "none" /\ e.t - m.retT > c.tol THEN {V("attempt-after-return", TRUE, m, e.t - m.retT)} ELSE {})
        \cup (IF m.cancelT >= 0 /\ e.t - m.cancelT > c.tol THEN {V("attempt-after-cancel", TRUE, m, e.t - m.cancelT)} ELSE {})
        \cup (IF m.sdRetT >= 0 /\ e.t - m.sdRetT > c.tol THEN {V("attempt-after-shutdown", TRUE, m, e.t - m.sdRetT)} ELSE {})>>
